@@ -42,22 +42,23 @@ type batchSpec struct {
 	sigs []*sigT
 	li   int
 	rots []int
+	lm   int
 }
 
-func chunk(sigs []*sigT, li int, rots []int, out []batchSpec) []batchSpec {
+func chunk(sigs []*sigT, li int, rots []int, lm int, out []batchSpec) []batchSpec {
 	var cur []*sigT
 	w := 0
 	for _, s := range sigs {
 		sw := len(stylesFor(s)) * (len(rots) + 2) * (len(s.P) + len(s.R) + 3)
 		if len(cur) > 0 && w+sw > 24000 {
-			out = append(out, batchSpec{cur, li, rots})
+			out = append(out, batchSpec{cur, li, rots, lm})
 			cur, w = nil, 0
 		}
 		cur = append(cur, s)
 		w += sw
 	}
 	if len(cur) > 0 {
-		out = append(out, batchSpec{cur, li, rots})
+		out = append(out, batchSpec{cur, li, rots, lm})
 	}
 	return out
 }
@@ -89,7 +90,25 @@ func layoutSlice(thorough bool) []*sigT {
 	return out
 }
 
-func plan(thorough bool) (planOpts, []batchSpec, int, int) {
+// listenerSlice selects the signatures re-run with function listeners attached. Quick: every cliff and typed
+// signature plus the small signatures of layoutSlice (they include every shape with more results than parameters
+// and vice versa). Thorough: every signature of the quick plan.
+func listenerSlice(thorough bool) []*sigT {
+	all := enumerateSigs(planOpts{maxP: 3, maxR: 2, maxArity: 20})
+	if thorough {
+		return all
+	}
+	var out []*sigT
+	for _, s := range all {
+		if s.Fam == "small" && !((len(s.P) <= 2 && len(s.R) <= 1) || (len(s.P) <= 1 && len(s.R) == 2)) {
+			continue
+		}
+		out = append(out, s)
+	}
+	return out
+}
+
+func plan(thorough bool) (planOpts, []batchSpec, int, int, int) {
 	o := planOpts{maxP: 3, maxR: 2, maxArity: 20}
 	if thorough {
 		o = planOpts{maxP: 4, maxR: 3, maxArity: 32}
@@ -99,11 +118,16 @@ func plan(thorough bool) (planOpts, []batchSpec, int, int) {
 	// the module-layout dimension first (cheap), then the full product in the plain layout
 	ls := layoutSlice(thorough)
 	for li := 1; li < len(layouts); li++ {
-		batches = chunk(ls, li, layoutRots, batches)
+		batches = chunk(ls, li, layoutRots, lmNone, batches)
+	}
+	// the function-listener dimension (plain layout)
+	lsl := listenerSlice(thorough)
+	for lm := lmAll; lm <= lmHostOnly; lm++ {
+		batches = chunk(lsl, 0, layoutRots, lm, batches)
 	}
 	sigs := enumerateSigs(o)
-	batches = chunk(sigs, 0, allRots, batches)
-	return o, batches, len(sigs), len(ls)
+	batches = chunk(sigs, 0, allRots, lmNone, batches)
+	return o, batches, len(sigs), len(ls), len(lsl)
 }
 
 // childDeadline is the parent's budget deadline (fw.Supervise only polls Stop when it (re)starts a worker, so
@@ -129,10 +153,10 @@ func runCase(batches []batchSpec, i int) (out string) {
 		}
 	}()
 	r := &runner{res: newResult()}
-	b := newBatch(batches[i].sigs, batches[i].li, batches[i].rots)
+	b := newBatch(batches[i].sigs, batches[i].li, batches[i].rots, batches[i].lm)
 	r.runBatch(b)
 	u := b.units[len(b.units)/2]
-	r.res.Sample = map[string]any{"batch": i, "signature": u.sig.String(), "family": u.sig.Fam, "style": u.st.String(), "layout": b.layout.Name,
+	r.res.Sample = map[string]any{"batch": i, "signature": u.sig.String(), "family": u.sig.Fam, "style": u.st.String(), "layout": b.layout.Name, "listeners": listenerModes[b.lm],
 		"rotation": 3, "params": hexs(values(u.sig.P, 3, false)), "results": hexs(values(u.sig.R, 3, true)), "directions": allDirs}
 	j, _ := json.Marshal(r.res)
 	return "R " + string(j)
@@ -160,7 +184,7 @@ func main() {
 		return
 	}
 	run := fw.Start("C08", "exploration")
-	opts, batches, nsigs, nLayoutSigs := plan(run.Thorough())
+	opts, batches, nsigs, nLayoutSigs, nLisSigs := plan(run.Thorough())
 	if fw.IsChild() {
 		fw.ChildLoop(func(i int) string { return runCase(batches, i) })
 		return
@@ -173,10 +197,14 @@ func main() {
 	sampleAt := map[int]any{}
 	skipped := 0
 	famSigs := map[string]int{}
-	layoutBatches := 0
+	layoutBatches, listenerBatches := 0, 0
 	for _, b := range batches {
 		if b.li != 0 {
 			layoutBatches++
+			continue
+		}
+		if b.lm != lmNone {
+			listenerBatches++
 			continue
 		}
 		for _, s := range b.sigs {
@@ -203,7 +231,7 @@ func main() {
 					desc = append(desc, s.String())
 				}
 				run.Violation("process-"+crash.Kind, fmt.Sprintf("batch %d (%s ... %s) %s: %s", i, desc[0], desc[len(desc)-1], crash.Kind, fw.FirstLines(crash.Stderr, 4)),
-					map[string]any{"batch": i, "layout": layouts[batches[i].li].Name, "signatures": desc})
+					map[string]any{"batch": i, "layout": layouts[batches[i].li].Name, "listeners": listenerModes[batches[i].lm], "signatures": desc})
 				outcomes.Inc("process " + crash.Kind)
 				return
 			}
@@ -260,10 +288,10 @@ func main() {
 			"small_signatures": fmt.Sprintf("all parameter lists of length <= %d x all result lists of length <= %d over {i32,i64,f32,f64,externref}", opts.maxP, opts.maxR),
 			"cliff_families":   fmt.Sprintf("all-i32/i64/f32/f64/externref, alternating int/float, int-mix, float-mix for arity 4..%d; 7 ints + k<=10 floats + m<=3 ints; each as params-only, results-only, both, params+2 results, 2 params+results", opts.maxArity),
 			"styles":           len(baseStyles), "typed_closures": len(typedDefs),
-			"directions": allDirs, "deep_const": map[string]int{"growth_boundaries": deepLevels, "window": deepWindow}, "module_layouts": layoutNames(), "layout_rotations": layoutRots, "layout_signatures": nLayoutSigs, "rotations": nRot, "boundary_rotations": nBoundary, "engines": engines,
+			"directions": allDirs, "deep_const": map[string]int{"growth_boundaries": deepLevels, "window": deepWindow}, "module_layouts": layoutNames(), "layout_rotations": layoutRots, "layout_signatures": nLayoutSigs, "listener_modes": listenerModes, "listener_signatures": nLisSigs, "rotations": nRot, "boundary_rotations": nBoundary, "engines": engines,
 			"alphabet_sizes": map[string]int{"i32": len(alpha[tI32]), "i64": len(alpha[tI64]), "f32": len(alpha[tF32]), "f64": len(alpha[tF64]), "externref": len(alpha[tExt])},
 		},
-		Extra: map[string]any{"signatures": nsigs, "signatures_by_family": famSigs, "modules": len(batches) * len(engines) * 2, "batches": len(batches), "layout_batches": layoutBatches, "batches_done": done,
+		Extra: map[string]any{"signatures": nsigs, "signatures_by_family": famSigs, "modules": len(batches) * len(engines) * 2, "batches": len(batches), "layout_batches": layoutBatches, "listener_batches": listenerBatches, "batches_done": done,
 			"host_functions_defined": total.Units, "guest_functions_compiled": total.Funcs,
 			"top_level_calls": total.Calls, "host_function_invocations": total.HostCalls, "cases": total.Cases},
 	}, []string{
@@ -317,7 +345,7 @@ func replay(file string) {
 				li = i
 			}
 		}
-		r.runBatch(newBatch([]*sigT{s}, li, allRots))
+		r.runBatch(newBatch([]*sigT{s}, li, allRots, rp.Lis))
 	}()
 	if r.res.Cases == 0 {
 		fw.Fatalf("replay matched no case (style %v not defined for %s)", rp.Style, s)
